@@ -103,3 +103,42 @@ package arvados
 //@   ensures startPtr.off >= 0 ==> 0 <= n && n <= len(p)
 //@   ensures n > 0 ==> ptr.off == startPtr.off + int64(n) && ptr.repacked == fn.repacked
 //@   ensures n > 0 ==> (ptr.segmentIdx < len(fn.segments) && 0 <= ptr.segmentIdx && 0 <= ptr.segmentOff && ptr.segmentOff < segment.Len(fn.segments[ptr.segmentIdx]) && segsum(row(fn.segments), rowoff(fn.segments), ptr.segmentIdx) + ptr.segmentOff == ptr.off) || (ptr.segmentIdx == len(fn.segments) && ptr.segmentOff == 0 && ptr.off == fn.fileinfo.size)
+
+// memSegment.Truncate: the result has length n, keeps the common prefix, zero
+// fills the new tail, and is copy-on-write: while a background flush shares
+// the buffer (flushing != nil) growing never touches the shared array and
+// detaches from the flush.
+//@ func memSegment.Truncate property C08
+//@   requires n >= 0
+//@   modifies memSegment.buf memSegment.flushing mem:byte
+//@   ensures len(me.buf) == n
+//@   ensures forall k int :: 0 <= k && k < n && k < old(len(me.buf)) ==> me.buf[k] == old(me.buf[k])
+//@   ensures forall k int :: old(len(me.buf)) <= k && k < n ==> me.buf[k] == 0
+//@   ensures old(me.flushing) != nil && n > old(len(me.buf)) ==> me.flushing == nil && (forall k int :: 0 <= k && k < old(cap(me.buf)) ==> old(me.buf)[k] == old(me.buf[k]))
+//@   loop 1: invariant newsize >= 1024 && n == old(n) && me == old(me)
+//@   loop 2: invariant me == old(me) && n == old(n) && oldlen == old(len(me.buf)) && len(me.buf) == n && n <= old(cap(me.buf)) && oldlen <= i && (oldlen <= n ==> i <= n) && old(me.flushing) == me.flushing
+//@   loop 2: invariant me.buf == old(me.buf)[0:n] && !(old(me.flushing) != nil && n > oldlen)
+//@   loop 2: invariant forall k int :: 0 <= k && k < oldlen && k < n ==> me.buf[k] == old(me.buf[k])
+//@   loop 2: invariant forall k int :: oldlen <= k && k < i ==> me.buf[k] == 0
+
+// memSegment.WriteAt: bytes [off, off+len(p)) become p, everything else is
+// kept; copy-on-write while a flush shares the buffer.
+//@ func memSegment.WriteAt property C08
+//@   requires 0 <= off && off + len(p) <= len(me.buf)
+//@   modifies memSegment.buf memSegment.flushing mem:byte
+//@   ensures len(me.buf) == old(len(me.buf))
+//@   ensures forall k int :: 0 <= k && k < len(p) ==> me.buf[off+k] == old(p[k])
+//@   ensures forall k int :: 0 <= k && k < len(me.buf) && (k < off || k >= off + len(p)) ==> me.buf[k] == old(me.buf[k])
+//@   ensures old(me.flushing) != nil ==> me.flushing == nil && (forall k int :: 0 <= k && k < old(len(me.buf)) ==> old(me.buf)[k] == old(me.buf[k]))
+
+// storedSegment: Slice keeps the sub-range inside the stored block; ReadAt asks
+// the backend only for bytes inside [offset, offset+length).
+//@ func storedSegment.Slice property C08,C03
+//@   requires 0 <= n && n <= se.length && se.offset >= 0 && se.offset + se.length <= se.size
+//@   ensures istype(result, storedSegment) && unbox(result, storedSegment).offset == se.offset + n && unbox(result, storedSegment).offset + unbox(result, storedSegment).length <= se.size && unbox(result, storedSegment).locator == se.locator && unbox(result, storedSegment).size == se.size
+//@   ensures size < 0 || size >= se.length - n ==> unbox(result, storedSegment).length == se.length - n
+//@   ensures size >= 0 && size < se.length - n ==> unbox(result, storedSegment).length == size
+
+//@ func storedSegment.ReadAt property C08,C03 safety -bounds
+//@   requires off >= 0 && se.length >= 0 && se.offset >= 0
+//@   calls fsBackend.ReadAt#*: requires $0 == se.locator && $2 >= se.offset && $2 + len($1) <= se.offset + se.length && len($1) <= len(old(p))
